@@ -5,6 +5,7 @@ use vstd::prelude::*;
 use bnum::{BUint, BInt};
 use super::limbs::*;
 use vstd::std_specs::ops::*;
+use vstd::std_specs::cmp::*;
 verus! {
 
 /// 2^(64 N): the modulus of BUint<N> arithmetic
@@ -39,22 +40,54 @@ pub assume_specification<const N: usize> [ <BUint<N> as crate::arith::Num>::low_
     ensures r == udigits(*a)[0], N >= 1 ==> r as nat == uv(*a) % W();
 
 
-/// `&BUint >> u32` through vstd's operator specs (bnum panics when the shift exceeds the width in the
-/// overflow-checked profile: that is the call-site obligation `shr_req`)
-#[verifier::external_body]
-pub proof fn axiom_buint_shr_ref<'a, const N: usize>(a: &'a BUint<N>, s: u32)
-    ensures
-        <&'a BUint<N> as vstd::std_specs::ops::ShrSpec<u32>>::shr_req(a, s) == ((s as int) < 64 * N),
-        <&'a BUint<N> as vstd::std_specs::ops::ShrSpec<u32>>::obeys_shr_spec(),
-        (s as int) < 64 * N ==> uv(<&'a BUint<N> as vstd::std_specs::ops::ShrSpec<u32>>::shr_spec(a, s)) == uv(*a) / (vstd::arithmetic::power2::pow2(s as nat)),
-{}
+// ---- operators, through vstd's operator specs. The axioms are stated on values; Verus normalises reference operands
+// (`&a / &b`, `a *= &b`) to the same instances. `*_req` is the call-site obligation: where bnum panics in the
+// overflow-checked profile (overflow, division by zero, oversized shift) the operation is simply not allowed.
 
 #[verifier::external_body]
-pub proof fn axiom_buint_shr_ref_i32<'a, const N: usize>(a: &'a BUint<N>, s: i32)
-    ensures
-        <&'a BUint<N> as vstd::std_specs::ops::ShrSpec<i32>>::shr_req(a, s) == (0 <= s && (s as int) < 64 * N),
-        <&'a BUint<N> as vstd::std_specs::ops::ShrSpec<i32>>::obeys_shr_spec(),
-        0 <= s && (s as int) < 64 * N ==> uv(<&'a BUint<N> as vstd::std_specs::ops::ShrSpec<i32>>::shr_spec(a, s)) == uv(*a) / (vstd::arithmetic::power2::pow2(s as nat)),
+pub proof fn axiom_buint_add<const N: usize>(a: BUint<N>, b: BUint<N>)
+    ensures a.add_req(b) == (uv(a) + uv(b) < pow_w(N as nat)), <BUint<N> as AddSpec<BUint<N>>>::obeys_add_spec(),
+        uv(a.add_spec(b)) == (uv(a) + uv(b)) % pow_w(N as nat),
+{}
+#[verifier::external_body]
+pub proof fn axiom_buint_sub<const N: usize>(a: BUint<N>, b: BUint<N>)
+    ensures a.sub_req(b) == (uv(a) >= uv(b)), <BUint<N> as SubSpec<BUint<N>>>::obeys_sub_spec(),
+        uv(a) >= uv(b) ==> uv(a.sub_spec(b)) == uv(a) - uv(b),
+{}
+#[verifier::external_body]
+pub proof fn axiom_buint_mul<const N: usize>(a: BUint<N>, b: BUint<N>)
+    ensures a.mul_req(b) == (uv(a) * uv(b) < pow_w(N as nat)), <BUint<N> as MulSpec<BUint<N>>>::obeys_mul_spec(),
+        uv(a.mul_spec(b)) == (uv(a) * uv(b)) % pow_w(N as nat),
+{}
+#[verifier::external_body]
+pub proof fn axiom_buint_div<const N: usize>(a: BUint<N>, b: BUint<N>)
+    ensures a.div_req(b) == (uv(b) != 0), <BUint<N> as DivSpec<BUint<N>>>::obeys_div_spec(),
+        uv(b) != 0 ==> uv(a.div_spec(b)) == uv(a) / uv(b),
+{}
+#[verifier::external_body]
+pub proof fn axiom_buint_div_assign<const N: usize>(a: BUint<N>, b: BUint<N>)
+    ensures a.div_assign_req(b) == (uv(b) != 0), <BUint<N> as DivAssignSpec<BUint<N>>>::obeys_div_assign_spec(),
+        uv(b) != 0 ==> uv(*a.div_assign_spec(b)) == uv(a) / uv(b),
+{}
+#[verifier::external_body]
+pub proof fn axiom_buint_rem<const N: usize>(a: BUint<N>, b: BUint<N>)
+    ensures a.rem_req(b) == (uv(b) != 0), <BUint<N> as RemSpec<BUint<N>>>::obeys_rem_spec(),
+        uv(b) != 0 ==> uv(a.rem_spec(b)) == uv(a) % uv(b),
+{}
+#[verifier::external_body]
+pub proof fn axiom_buint_shr_i32<const N: usize>(a: BUint<N>, s: i32)
+    ensures a.shr_req(s) == (0 <= s && (s as int) < 64 * N), <BUint<N> as ShrSpec<i32>>::obeys_shr_spec(),
+        0 <= s && (s as int) < 64 * N ==> uv(a.shr_spec(s)) == uv(a) / (vstd::arithmetic::power2::pow2(s as nat)),
+{}
+#[verifier::external_body]
+pub proof fn axiom_buint_shr_u32<const N: usize>(a: BUint<N>, s: u32)
+    ensures a.shr_req(s) == ((s as int) < 64 * N), <BUint<N> as ShrSpec<u32>>::obeys_shr_spec(),
+        (s as int) < 64 * N ==> uv(a.shr_spec(s)) == uv(a) / (vstd::arithmetic::power2::pow2(s as nat)),
+{}
+#[verifier::external_body]
+pub proof fn axiom_buint_cmp<const N: usize>(a: BUint<N>, b: BUint<N>)
+    ensures <BUint<N> as vstd::std_specs::cmp::PartialOrdSpec<BUint<N>>>::obeys_partial_cmp_spec(),
+        a.partial_cmp_spec(&b) == Some(if uv(a) < uv(b) { core::cmp::Ordering::Less } else if uv(a) == uv(b) { core::cmp::Ordering::Equal } else { core::cmp::Ordering::Greater }),
 {}
 
 /// vstd's array clone yields `cloned` elements; for u64 that is equality
@@ -64,5 +97,29 @@ pub proof fn lemma_array_clone_u64<const N: usize>(a: [u64; N], b: [u64; N])
 {
     assert(a@ =~= b@);
 }
+
+
+pub assume_specification<const N: usize> [ BUint::<N>::bits ] (a: &BUint<N>) -> (r: u32)
+    ensures r as nat == bitlen(uv(*a)), r <= 64 * N;
+
+/// number of significant bits
+pub open spec fn bitlen(x: nat) -> nat decreases x { if x == 0 { 0 } else { 1 + bitlen(x / 2) } }
+
+pub proof fn lemma_bitlen_bound(x: nat, k: nat)
+    requires bitlen(x) <= k
+    ensures x < vstd::arithmetic::power2::pow2(k)
+    decreases k
+{
+    vstd::arithmetic::power2::lemma2_to64();
+    if x == 0 { vstd::arithmetic::power2::lemma_pow2_pos(k); }
+    else {
+        lemma_bitlen_bound(x / 2, (k - 1) as nat);
+        vstd::arithmetic::power2::lemma_pow2_unfold(k);
+        vstd::arithmetic::div_mod::lemma_fundamental_div_mod(x as int, 2);
+    }
+}
+
+pub assume_specification<const N: usize> [ <BUint<N> as core::convert::From<u64>>::from ] (x: u64) -> (r: BUint<N>)
+    ensures N >= 1 ==> uv(r) == x as nat;
 
 } // verus!
